@@ -38,6 +38,8 @@ pub struct GenCfg {
     pub wide_literals: bool,
     /// allow stack built-ins even in the guarded profile (C07: only the reader is exercised)
     pub stack_anyway: bool,
+    /// percent chance (per shape draw) of a keyword-list alternation of 28..48 literals
+    pub big_choices_pct: u32,
 }
 
 impl GenCfg {
@@ -55,6 +57,7 @@ impl GenCfg {
             builtin_named_rules: false,
             wide_literals: false,
             stack_anyway: false,
+            big_choices_pct: 0,
         }
     }
 }
@@ -555,6 +558,26 @@ impl<'a> G<'a> {
 
     /// Shapes the optimizer passes look for (and the restorer's job).
     fn shape(&mut self, d: usize, lm: bool, need: Need) -> Option<Expr> {
+        if self.cfg.big_choices_pct > 0 && self.rng.chance(self.cfg.big_choices_pct, 100) {
+            // a tokenizer-style keyword list: many literal alternatives tried at one position
+            let n = 28 + self.rng.below(21);
+            let cs = ['a', 'b', 'c', 'x', 'é', '-', '1'];
+            let mut e: Option<Expr> = None;
+            let off = self.rng.below(49);
+            for i in 0..n {
+                let j = (i + off) % 49;
+                let lit = format!("{}{}", cs[j / 7], cs[j % 7]);
+                let s = Expr::Str(lit);
+                e = Some(match e {
+                    None => s,
+                    Some(p) => Expr::Choice(Box::new(p), Box::new(s)),
+                });
+            }
+            let list = e.unwrap();
+            // followed by a few more alternatives that try further tokens at the same position
+            let tail = self.gen(d.saturating_sub(2), lm, if need == Need::Free { Need::CanFail } else { need });
+            return Some(Expr::Choice(Box::new(list), Box::new(tail)));
+        }
         let k = self.rng.below(8);
         match k {
             0 => {
